@@ -37,17 +37,24 @@ func TestMain(m *testing.M) {
 type Case struct {
 	Writers int
 	Readers int
+	Shared  bool  // all committers write the same three keys
 	ParkWM  bool  // also park at the watermark's internal yield points
 	Free    bool  // free-running (no scheduler): stress variant
 	Sched   []int // choice sequence
 }
 
-var keys = [][]byte{[]byte("k1"), []byte("k2"), []byte("k3")}
+// every committer writes its own three keys (group g: g.k1 g.k2 g.k3) - a commit that
+// becomes visible late is then not masked by a newer commit of another writer - plus,
+// in "shared" cases, all write the same three keys (newest-wins dimension).
+func groupKeys(g int) [][]byte {
+	return [][]byte{[]byte(fmt.Sprintf("g%d.k1", g)), []byte(fmt.Sprintf("g%d.k2", g)), []byte(fmt.Sprintf("g%d.k3", g))}
+}
 
 func gen(t *rapid.T) Case {
 	return Case{
 		Writers: rapid.IntRange(1, 3).Draw(t, "writers"),
 		Readers: rapid.IntRange(1, 3).Draw(t, "readers"),
+		Shared:  rapid.IntRange(0, 3).Draw(t, "shared") == 0,
 		ParkWM:  rapid.Bool().Draw(t, "parkwm"),
 		Sched:   genBursts(t),
 	}
@@ -71,12 +78,13 @@ func genBursts(t *rapid.T) []int {
 }
 
 func genFree(t *rapid.T) Case {
-	return Case{Writers: rapid.IntRange(2, 4).Draw(t, "writers"), Readers: rapid.IntRange(2, 4).Draw(t, "readers"), Free: true,
+	return Case{Writers: rapid.IntRange(2, 4).Draw(t, "writers"), Readers: rapid.IntRange(2, 4).Draw(t, "readers"), Free: true, Shared: rapid.Bool().Draw(t, "shared"),
 		Sched: []int{rapid.IntRange(1, 40).Draw(t, "rounds")}}
 }
 
 type obs struct {
 	pass int
+	grp  int
 	key  int
 	tag  int // -1 = not found
 	via  string
@@ -124,7 +132,11 @@ func oneRound(c Case, r *pbt.Rec, db *NoKV.DB, round int) error {
 	writerScript := func(i int, yield func(string)) {
 		tx := db.NewTransaction(true)
 		yield("w.begun")
-		for _, k := range keys {
+		g := i
+		if c.Shared {
+			g = 0
+		}
+		for _, k := range groupKeys(g) {
 			if e := tx.Set(k, []byte(fmt.Sprintf("w%d", base+i))); e != nil {
 				werrs[i] = e
 				tx.Discard()
@@ -141,36 +153,46 @@ func oneRound(c Case, r *pbt.Rec, db *NoKV.DB, round int) error {
 		tx := db.NewTransaction(false)
 		defer tx.Discard()
 		rd.readTs = tx.ReadTs()
+		groups := c.Writers
+		if c.Shared {
+			groups = 1
+		}
 		for pass := 0; pass < 2; pass++ {
-			for ki, k := range keys {
-				yield("r.beforeGet")
-				item, e := tx.Get(k)
-				switch {
-				case errors.Is(e, utils.ErrKeyNotFound):
-					rd.seen = append(rd.seen, obs{pass, ki, -1, "get"})
-				case e != nil:
-					rd.err = e
-					return
-				default:
-					rd.seen = append(rd.seen, obs{pass, ki, tagOf(item.Entry().Value), "get"})
+			for g := 0; g < groups; g++ {
+				for ki, k := range groupKeys(g) {
+					yield("r.beforeGet")
+					item, e := tx.Get(k)
+					switch {
+					case errors.Is(e, utils.ErrKeyNotFound):
+						rd.seen = append(rd.seen, obs{pass, g, ki, -1, "get"})
+					case e != nil:
+						rd.err = e
+						return
+					default:
+						rd.seen = append(rd.seen, obs{pass, g, ki, tagOf(item.Entry().Value), "get"})
+					}
 				}
 			}
 			yield("r.beforeIter")
 			it := tx.NewIterator(NoKV.IteratorOptions{})
-			found := map[int]bool{}
+			found := map[[2]int]bool{}
 			for it.Rewind(); it.Valid(); it.Next() {
 				e := it.Item().Entry()
-				for ki, k := range keys {
-					if bytes.Equal(e.Key, k) {
-						found[ki] = true
-						rd.seen = append(rd.seen, obs{pass, ki, tagOf(e.Value), "iter"})
+				for g := 0; g < groups; g++ {
+					for ki, k := range groupKeys(g) {
+						if bytes.Equal(e.Key, k) {
+							found[[2]int{g, ki}] = true
+							rd.seen = append(rd.seen, obs{pass, g, ki, tagOf(e.Value), "iter"})
+						}
 					}
 				}
 			}
 			it.Close()
-			for ki := range keys {
-				if !found[ki] {
-					rd.seen = append(rd.seen, obs{pass, ki, -1, "iter"})
+			for g := 0; g < groups; g++ {
+				for ki := range groupKeys(g) {
+					if !found[[2]int{g, ki}] {
+						rd.seen = append(rd.seen, obs{pass, g, ki, -1, "iter"})
+					}
 				}
 			}
 		}
@@ -249,18 +271,29 @@ func oneRound(c Case, r *pbt.Rec, db *NoKV.DB, round int) error {
 	fin := db.NewTransaction(false)
 	defer fin.Discard()
 	verOf := map[int]uint64{} // tag -> version
-	for ki, k := range keys {
-		it := fin.NewKeyIterator(k, NoKV.IteratorOptions{})
-		for it.Rewind(); it.Valid(); it.Next() {
-			e := it.Item().Entry()
-			tag := tagOf(e.Value)
-			if v, ok := verOf[tag]; ok && v != e.Version {
-				it.Close()
-				return pbt.Failf("split-version", "writer w%d's keys carry different commit versions (%d and %d on %s)", tag, v, e.Version, keys[ki])
+	grpOf := map[int]int{}    // tag -> key group
+	groups := c.Writers
+	if c.Shared {
+		groups = 1
+	}
+	for g := 0; g < groups; g++ {
+		for ki, k := range groupKeys(g) {
+			it := fin.NewKeyIterator(k, NoKV.IteratorOptions{})
+			for it.Rewind(); it.Valid(); it.Next() {
+				e := it.Item().Entry()
+				tag := tagOf(e.Value)
+				if tag/10 != round {
+					continue // written in an earlier round
+				}
+				if v, ok := verOf[tag]; ok && v != e.Version {
+					it.Close()
+					return pbt.Failf("split-version", "writer w%d's keys carry different commit versions (%d and %d on %s)", tag, v, e.Version, groupKeys(g)[ki])
+				}
+				verOf[tag] = e.Version
+				grpOf[tag] = g
 			}
-			verOf[tag] = e.Version
+			it.Close()
 		}
-		it.Close()
 	}
 	for i := 0; i < c.Writers; i++ {
 		if _, ok := verOf[base+i]; !ok {
@@ -274,17 +307,21 @@ func oneRound(c Case, r *pbt.Rec, db *NoKV.DB, round int) error {
 		if rd.err != nil {
 			return pbt.Failf("read-error", "reader %d: %v", ri, rd.err)
 		}
-		want, wantVer := -1, uint64(0)
-		for tag, v := range verOf {
-			if v <= rd.readTs && v >= wantVer {
-				want, wantVer = tag, v
-			}
-		}
 		for _, o := range rd.seen {
-			if o.tag != want {
-				kind := "late or partial visibility"
-				return pbt.Failf("snapshot", "reader %d (ReadTs=%d) observed %s=%s via %s in pass %d, want %s (the commit with the greatest version <= ReadTs is version %d): %s; versions: %v; schedule trace: %s",
-					ri, rd.readTs, keys[o.key], tagStr(o.tag), o.via, o.pass, tagStr(want), wantVer, kind, verOf, trace)
+			// expected: the writer of this key group with the greatest commit version <= ReadTs
+			want, wantVer := -1, uint64(0)
+			for tag, v := range verOf {
+				if grpOf[tag] == o.grp && v <= rd.readTs && v >= wantVer {
+					want, wantVer = tag, v
+				}
+			}
+			got := o.tag
+			if got >= 0 && got/10 != round {
+				got = -1 // value of an earlier round = nothing of this round visible
+			}
+			if got != want {
+				return pbt.Failf("snapshot", "reader %d (ReadTs=%d) observed %s=%s via %s in pass %d, want %s (greatest commit version <= ReadTs among the writers of that key is %d): late or partial visibility; versions: %v; schedule trace: %s",
+					ri, rd.readTs, groupKeys(o.grp)[o.key], tagStr(o.tag), o.via, o.pass, tagStr(want), wantVer, verOf, trace)
 			}
 		}
 	}
@@ -344,7 +381,7 @@ func TestCheck(t *testing.T) {
 		Assumptions: []string{"interleavings are explored at yield-point granularity only (plus free-running stress and -race in the thorough tier)",
 			"conflict detection is off: committers blind-write, so no commit is refused"},
 	}
-	pbt.Add(s, &pbt.Spec[Case]{Name: "sched", Gen: gen, Run: run, Quick: 1200, Thorough: 60000, Shards: 8})
+	pbt.Add(s, &pbt.Spec[Case]{Name: "sched", Gen: gen, Run: run, Quick: 3000, Thorough: 90000, Shards: 8})
 	pbt.Add(s, &pbt.Spec[Case]{Name: "free", Gen: genFree, Run: run, Quick: 60, Thorough: 3000, Shards: 4, Nondet: true})
 	if pbt.Tier() == "thorough" {
 		pbt.Add(s, &pbt.Spec[Case]{Name: "race", Gen: func(t *rapid.T) Case { return Case{Free: true, Sched: []int{rapid.IntRange(1, 1).Draw(t, "x")}} }, Run: runRace, Quick: 1, Thorough: 2})
